@@ -17,7 +17,8 @@ def main(path: str) -> None:
     U = core_universe()
     from vlib import origins as _O
 
-    _O.variant_source_class()  # the model's own Source subclass must exist (be registered by name) in the reading process too
+    _O.variant_source_class()  # the model's own Source / Origin subclasses must exist (be registered by name) in the reading process too
+    _O.span_origin_class()
     from pyoak.node import NODE_REGISTRY, ASTNode
     from pyoak.origin import SOURCE_OPTIMIZED_SERIALIZATION_KEY, Source
     from pyoak.serialize import SerializationOption
